@@ -105,7 +105,9 @@ pub fn run_one(prop: &dyn Prop, tape: Tape, trace: bool, want_sample: bool) -> R
     if want_sample {
         world.borrow_mut().want_sample = true;
     }
+    crate::clock::reset();
     let res = catch_unwind(AssertUnwindSafe(|| prop.run(&world, want_sample)));
+    crate::clock::reset();
     let mut w = world.borrow_mut();
     let id = prop.id();
     let (fail, sample) = match res {
